@@ -201,6 +201,8 @@ func postStartReach(c *Ctx, roots []*ssa.Function, st *starterInfo, edgeOK func(
 // ---- main -----------------------------------------------------------------------------
 
 func runC07(c *Ctx, r *Report) {
+	r.Rule("C07/child-stored", "every command the system transport starts is stored in the transport, where Close finds the process to signal", 1)
+	checkChildStored(c, r, "C07/child-stored")
 	importFoundation(c, r, "C07", "netconf-reader-lifecycle")
 	r.Rule("C07/globals-immutable", "package-level variables of the library are written only by init functions and inside sync.Once", 1)
 	checkGlobalsNotWrittenAtRunTime(c, r, "C07/globals-immutable")
